@@ -171,3 +171,20 @@ Theorem C07_namespace_lazy : forall w m n n' k,
    the_ctx (snd (fst (tstep w m n k))) = the_ctx (snd (fst (tstep w m n' k)))).
 Proof. exact tstep_lazy. Qed.
 Print Assumptions C07_namespace_lazy.
+
+(* the other half of the hypothesis is needed as well (the property speaks of
+   DIFFERENT compiled workbooks): two threads with their own namespaces evaluating
+   the SAME compiler - there are workloads and a schedule on which what a thread
+   gets back (outcome, value, pass count) differs from its solo run *)
+Theorem C07_shared_compiler_interferes :
+  exists cf kinds comps sched t,
+    (forall a b, a <> b -> c_ns cf a <> c_ns cf b) /\
+    c_comp cf 0%nat = c_comp cf 1%nat /\
+    (m_phase (g_m (run cf sched (fresh_process kinds comps)) t),
+     m_res (g_m (run cf sched (fresh_process kinds comps)) t),
+     m_passes (g_m (run cf sched (fresh_process kinds comps)) t))
+    <> (m_phase (g_m (run cf (only t sched) (fresh_process kinds comps)) t),
+        m_res (g_m (run cf (only t sched) (fresh_process kinds comps)) t),
+        m_passes (g_m (run cf (only t sched) (fresh_process kinds comps)) t)).
+Proof. exact shared_compiler_interferes. Qed.
+Print Assumptions C07_shared_compiler_interferes.
